@@ -1,5 +1,7 @@
 """C05 - x-ray factors, SLD and refraction follow the tables and documented equations."""
 from contracts import ancillary as A
+from contracts import core as K
+from contracts import formulas as F
 
 ID = "C05"
 LEVEL = "other"
@@ -13,13 +15,14 @@ EXPLANATION = ("Deductive: xray_wavelength/xray_energy (E*lambda == hc 1e7, roun
 
 
 def units(tier):
-    return [A.U_XWAVELENGTH, A.U_XENERGY, A.U_XROUNDTRIP] + A.U_SCATTERING_FACTORS + A.U_XRAY_SLD + A.U_INDEX_OF_REFRACTION + A.U_FXRAY_KEYS
+    return [A.U_XWAVELENGTH, A.U_XENERGY, A.U_XROUNDTRIP] + A.U_SCATTERING_FACTORS + A.U_XRAY_SLD + A.U_INDEX_OF_REFRACTION + A.U_FXRAY_KEYS + [F.U_FORMULA_XRAY_SLD, K.L_REGISTRATION]
 
 
 def runner_tasks(tier):
     return [{"module": "c05", "task": "tables", "kind": "eval", "clause": "f1/f2 at and between all table nodes; NaN outside"},
             {"module": "c05", "task": "f0", "kind": "eval", "clause": "f0 coefficients and limits, all 211 entries"},
-            {"module": "c05", "task": "sld", "kind": "bounded", "clause": "compound SLD, relations, reflectivity"}]
+            {"module": "c05", "task": "sld", "kind": "bounded", "clause": "compound SLD, relations, reflectivity"},
+            {"module": "c09", "task": "steps", "name": "first-touch steps", "kind": "eval", "arg": {"groups": ["xray"]}, "clause": "every first touch of the x-ray data serves the canonical data", "timeout": 1500}]
 
 
 REPLAY = {"module": "c05", "task": "replay"}
